@@ -65,6 +65,15 @@ def run(ctx):
     for it in items:
         by_level[it["level"]] = by_level.get(it["level"], 0) + 1
     ctx.cov["expressions_enumerated"] = {"total": len(items), "by_operator_level": by_level}
+    # chains of scalars ((X op a) op b, a op (b op X)): every one enumerated in every tier, each compared with the
+    # single-operator forms on a combined number, and |X| = (X ** 2) ** 0.5 claimed exactly where X is negative
+    per, nfold, nabs = pa.chain_stats(items)
+    ctx.cov["expressions_enumerated"].update({"scalar_chains_by_nesting_and_operator": dict(sorted(per.items())),
+                                              "scalar_chain_vs_single_operator_form_pairs_compared": nfold,
+                                              "exact_values_of_sqrt_of_square_at_negative_leaf_values": nabs})
+    if len(per) < 10 or min(per.values()) < 12 or nfold < 300 or nabs < 6:
+        raise core.MachineryFailure(f"C16: chains of scalars vacuous: {per}, {nfold} comparisons with single-operator forms, "
+                                    f"{nabs} exact |leaf| values at negative leaf values")
     # design canaries: the pinned mechanism must violate the clauses (each switch on its own), and so must a cache
     # that ignores the time argument
     cases = []
